@@ -87,6 +87,12 @@ def gen_prepend(rng):
             "env": env, "shape": shape}
 
 
+def implicit_delim(value, delim):
+    """is the delimiter argument left out of the command (the table then relies on the default, a colon)?  Decided
+    from the case itself so that the random stream of the generators is what it was"""
+    return delim == ":" and len(value) % 2 == 0
+
+
 def gen_set(rng):
     var = rng.choice(VARS)
     env = {"HOME": "/root", "OTHER": "/o/ther", "EMPTY": ""}
@@ -187,7 +193,9 @@ def impl_batch(cases):
 
     def act(a, fwd, stub):
         if a[0] == "P":
-            T.Action("tbl", "envPrepend", [a[2], a[3], a[4]], {"append": bool(a[1])}).execute(stub, 1, fwd)
+            # the delimiter argument is optional in a table (default ":"): left out for half of the colon cases
+            args = [a[2], a[3]] if implicit_delim(a[3], a[4]) else [a[2], a[3], a[4]]
+            T.Action("tbl", "envPrepend", args, {"append": bool(a[1])}).execute(stub, 1, fwd)
         elif a[0] == "S":
             T.Action("tbl", "envSet", [a[1], a[2]], {}).execute(stub, 1, fwd)
         else:
@@ -388,6 +396,8 @@ def compare(ctx, cases):
         nontrivial = c["shape"] not in ("degenerate",) and (c["op"] != "prepend" or c["env"].get(c["var"]))
         ctx.count(1, key="%s/%s/%s" % (c["op"], c["shape"], "fwd" if c["fwd"] else "rev"),
                   nontrivial=to_line(c) if nontrivial else None)
+        if c["op"] == "prepend" and implicit_delim(c["value"], c["delim"]):
+            ctx.bump("delimiter-argument-left-out (default colon)")
         if "err" in i and i["err"].startswith("Crash"):
             ctx.bump("impl-crash")
         if m != i:
